@@ -129,7 +129,7 @@ fn second_boundary_warm_up() {
     while subsec_ms() < 850 {
         std::thread::sleep(std::time::Duration::from_millis(5));
     }
-    let cfg = EntityCfg { len: 10, etag: None, mtime_ns: Some(784111777u128 * 1_000_000_000), hdrs: vec![], recipes: vec![], default_recipe: vec![Op::Rest], split: false, mtime_before_epoch: false, volatile_hdrs: false };
+    let cfg = EntityCfg { len: 10, etag: None, mtime_ns: Some(784111777u128 * 1_000_000_000), hdrs: vec![], recipes: vec![], default_recipe: vec![Op::Rest], split: false, mtime_before_epoch: false, volatile_hdrs: false, slow_etag_ms: 0 };
     let ent = ScriptedEntity { cfg, log: Arc::new(Mutex::new(Log::default())) };
     let req = http::Request::builder().method("GET").body(()).unwrap();
     let _ = catch_unwind(AssertUnwindSafe(|| http_serve::serve(ent, &req)));
@@ -363,6 +363,7 @@ pub fn case_of_input(v: &Val) -> Option<ServeCase> {
             split: false,
             mtime_before_epoch: false,
             volatile_hdrs: false,
+            slow_etag_ms: 0,
         },
         method: r[0].as_b()?.clone(),
         headers,
@@ -399,7 +400,7 @@ pub fn pre_epoch_checks() -> Vec<String> {
             ] {
                 let cfg = EntityCfg {
                     len: 100, etag: Some(b"\"abc\"".to_vec()), mtime_ns: Some(secs as u128 * 1_000_000_000 + sub as u128),
-                    hdrs: vec![], recipes: vec![], default_recipe: vec![Op::Rest], split: false, mtime_before_epoch: true, volatile_hdrs: false,
+                    hdrs: vec![], recipes: vec![], default_recipe: vec![Op::Rest], split: false, mtime_before_epoch: true, volatile_hdrs: false, slow_etag_ms: 0,
                 };
                 let ent = ScriptedEntity { cfg, log: Arc::new(Mutex::new(Log::default())) };
                 let mut rb = http::Request::builder().method(method);
@@ -426,6 +427,107 @@ pub fn pre_epoch_checks() -> Vec<String> {
                             }
                         }
                     }
+                }
+            }
+        }
+    }
+    fails
+}
+
+
+/// An entity whose validators take time to compute (etag() sleeps past a second boundary) and whose
+/// modification time lies in the future, so that Last-Modified is the clock: Date and Last-Modified must come
+/// from ONE reading of the clock -- "a Last-Modified that never exceeds that Date" (C14). Harness-level checks.
+pub fn slow_validator_checks() -> Vec<String> {
+    let mut fails = vec![];
+    let now = SystemTime::now().duration_since(SystemTime::UNIX_EPOCH).unwrap().as_secs();
+    for (method, hdrs) in [
+        ("GET", vec![]),
+        ("HEAD", vec![]),
+        ("GET", vec![("if-none-match", "\"abc\"")]),
+        ("GET", vec![("range", "bytes=500-")]),
+    ] {
+        let cfg = EntityCfg {
+            len: 100, etag: Some(b"\"abc\"".to_vec()), mtime_ns: Some((now as u128 + 86_400) * 1_000_000_000 + 5),
+            hdrs: vec![], recipes: vec![], default_recipe: vec![Op::Rest], split: false, mtime_before_epoch: false, volatile_hdrs: false, slow_etag_ms: 1100,
+        };
+        let ent = ScriptedEntity { cfg, log: Arc::new(Mutex::new(Log::default())) };
+        let mut rb = http::Request::builder().method(method);
+        for (k, v) in &hdrs {
+            rb = rb.header(*k, *v);
+        }
+        let req = rb.body(()).unwrap();
+        let tag = format!("{} {:?}", method, hdrs).replace(',', ";");
+        match catch_unwind(AssertUnwindSafe(|| http_serve::serve(ent, &req))) {
+            Err(_) => fails.push(format!("serve-panicked-with-a-slow-validator({})", tag)),
+            Ok(resp) => {
+                let date = resp.headers().get("date").and_then(|v| v.to_str().ok()).and_then(|s| httpdate::parse_http_date(s).ok());
+                let lm = resp.headers().get("last-modified").and_then(|v| v.to_str().ok()).and_then(|s| httpdate::parse_http_date(s).ok());
+                match (date, lm) {
+                    (Some(d), Some(l)) if l > d => fails.push(format!("last-modified-exceeds-date-with-a-slow-validator({})", tag)),
+                    (Some(_), Some(_)) => {}
+                    _ => fails.push(format!("date-or-last-modified-missing-with-a-slow-validator({})", tag)),
+                }
+            }
+        }
+    }
+    fails
+}
+
+/// Tens of thousands of one-byte ranges on a large entity, served as multipart and drained: no panic, every
+/// part there, the length announced (C13, C06, C01). Harness-level checks (the extracted model walks lists and
+/// would take minutes on such a case).
+pub fn many_parts_checks() -> Vec<String> {
+    let mut fails = vec![];
+    for n in [300usize, 32_767, 32_768, 40_000, 70_000] {
+        let len: u64 = 8 << 20;
+        let hdr = format!("bytes={}", (0..n).map(|i| { let p = (i as u64 * 97) % len; format!("{}-{}", p, p) }).collect::<Vec<_>>().join(","));
+        let cfg = EntityCfg {
+            len, etag: None, mtime_ns: None, hdrs: vec![], recipes: vec![], default_recipe: vec![Op::Rest], split: false,
+            mtime_before_epoch: false, volatile_hdrs: false, slow_etag_ms: 0,
+        };
+        let ent = ScriptedEntity { cfg, log: Arc::new(Mutex::new(Log::default())) };
+        let req = http::Request::builder().method("GET").header("range", hdr).body(()).unwrap();
+        let r = catch_unwind(AssertUnwindSafe(|| {
+            let resp = http_serve::serve(ent, &req);
+            let st = resp.status().as_u16();
+            let cl: Option<u64> = resp.headers().get("content-length").and_then(|v| v.to_str().ok()).and_then(|s| s.parse().ok());
+            let mut body = Box::pin(resp.into_body());
+            let waker = noop_waker();
+            let mut cx = Context::from_waker(&waker);
+            let mut total = 0u64;
+            let mut parts = 0usize;
+            let mut ended = false;
+            for _ in 0..(4 * n + 16) {
+                match body.as_mut().poll_frame(&mut cx) {
+                    Poll::Ready(Some(Ok(f))) => {
+                        if let Ok(d) = f.into_data() {
+                            use bytes::Buf;
+                            let mut d = d;
+                            let b = d.copy_to_bytes(d.remaining());
+                            total += b.len() as u64;
+                            if b.starts_with(b"\r\n--B\r\n") {
+                                parts += 1;
+                            }
+                        }
+                    }
+                    Poll::Ready(None) => {
+                        ended = true;
+                        break;
+                    }
+                    Poll::Ready(Some(Err(_))) => break,
+                    Poll::Pending => break,
+                }
+            }
+            (st, cl, total, parts, ended)
+        }));
+        match r {
+            Err(_) => fails.push(format!("serve-or-its-body-panicked-with-{}-ranges", n)),
+            Ok((st, cl, total, parts, ended)) => {
+                if st != 206 {
+                    fails.push(format!("status-{}-for-{}-efficient-ranges", st, n));
+                } else if !ended || cl != Some(total) || parts != n {
+                    fails.push(format!("multipart-body-of-{}-ranges-incomplete(ended={} announced={:?} delivered={} parts={})", n, ended, cl, total, parts).replace(',', ";"));
                 }
             }
         }
